@@ -301,7 +301,7 @@ func caseWatchdog() time.Duration {
 			return time.Duration(n) * time.Second
 		}
 	}
-	return 45 * time.Second
+	return 20 * time.Second
 }
 
 func firstMatchLine(s, sub string) string {
@@ -335,10 +335,21 @@ func runBatches(r *mon.Run, cases []WCase, per, w int) []WResult {
 	// A child killed by a signal (OOM killer while several children hold giant
 	// allocations) or stopped by the watchdog says little about the case that
 	// happened to be running: re-run those cases alone, one at a time.
+	reruns := 0
 	for i := range out {
 		if out[i].Outcome == "timeout" || (out[i].Outcome == "exit" && strings.Contains(out[i].Panic, "exit status -1")) {
+			// confirm the first few alone; once a hang is confirmed the remaining ones are
+			// counted but not each paid for with another long wait
+			if reruns >= 3 {
+				r.Count("timeouts_not_rerun", 1)
+				if out[i].Outcome == "timeout" {
+					out[i].Outcome = "timeout-unconfirmed"
+				}
+				continue
+			}
+			reruns++
 			r.Count("cases_rerun_alone", 1)
-			os.Setenv("VCHECK_CASE_WATCHDOG_S", "120")
+			os.Setenv("VCHECK_CASE_WATCHDOG_S", "60")
 			res, err := runBatch(cases[i:i+1], 5*time.Minute)
 			os.Unsetenv("VCHECK_CASE_WATCHDOG_S")
 			if err == nil && len(res) == 1 {
